@@ -248,7 +248,7 @@ func TestVerifC14Inputs(t *testing.T) {
 	w := mc.NewWorker(t, "C14")
 	defer w.Finish()
 	cases := c14InputCases(w.Thorough())
-	seq := []string{"run:p0", "create:c0", "start:c0", "update:c0:0", "sync", "reconf:0", "stop:c0", "remove:c0", "stoppod:p0", "rmpod:p0"}
+	seq := []string{"run:p0", "create:c0", "start:c0", "update:c0:0", "update:c0:1", "update:c0:2", "sync", "reconf:0", "stop:c0", "remove:c0", "stoppod:p0", "rmpod:p0"}
 	replay := ""
 	if w.ReplayV != nil {
 		replay = w.ReplayV.Scenario
@@ -369,6 +369,44 @@ func TestVerifC19Balloons(t *testing.T) {
 			}
 			if i%17 == 0 && pre == "" {
 				w.Sample(map[string]any{"types": cs.order, "container": cs.kind, "balloon_type": got})
+			}
+		}
+	}
+	// containers of ONE pod that resolve to different types (container-specific annotation next to a namespace pattern, or
+	// next to a pod-wide annotation): each must land in a balloon of its own type, whichever of them is created first
+	if w.Mine(len(cases)) && replay == "" {
+		defs := []*blDef{{Name: "byns", Namespaces: []string{"team-*"}, MaxCpus: 4}, {Name: "named", MaxCpus: 4}, {Name: "other", MaxCpus: 4}}
+		for _, mc2 := range []struct {
+			name  string
+			ann   map[string]string
+			wantC string
+			wantD string
+		}{
+			{"ns-pattern+container-annotation", map[string]string{annBalloon + "/container.d": "named"}, "byns", "named"},
+			{"pod-annotation+container-annotation", map[string]string{annBalloon + "/pod": "other", annBalloon + "/container.d": "named"}, "other", "named"},
+			{"bare-annotation+container-annotation", map[string]string{annBalloon: "named", annBalloon + "/container.c": "other"}, "other", "named"},
+		} {
+			for _, order := range [][]string{{"create:c0", "create:c1"}, {"create:c1", "create:c0"}} {
+				sc := &scenario{name: "c19/one-pod-two-types/" + mc2.name, policy: polBalloons, machine: machine16(), cfgs: []cfgSpec{blCfg("two-types", defs)}, maxInc: 1,
+					pods: []podSpec{{name: "duo", ns: "team-a", qos: "Burstable", annotations: mc2.ann, ctrs: []ctrSpec{{name: "c", t: tB500}, {name: "d", t: tB500}}}}}
+				x, err := newExec(sc, scratchDir())
+				if err != nil {
+					w.Report(mc.Violation{Property: "C19", Oracle: "setup", Signature: "setup-fails", Scenario: sc.name, Detail: err.Error()})
+					continue
+				}
+				x.evIndex = -1
+				x.step("run:p0")
+				for _, ev := range order {
+					x.step(ev)
+				}
+				post := x.snapshot()
+				gotC, gotD := x.balloonDefOf(x.w.ctrs[0], post), x.balloonDefOf(x.w.ctrs[1], post)
+				w.Res.Evaluations++
+				w.Res.Nontrivial++
+				if gotC != mc2.wantC || gotD != mc2.wantD {
+					w.Report(mc.Violation{Property: "C19", Oracle: "balloon-type-selection", Signature: "balloon-type-selection:one-pod-two-types", Scenario: sc.name, Trace: append([]string{"run:p0"}, order...),
+						Detail: fmt.Sprintf("pod with annotations %v: container c lands in %q (expected %q), container d in %q (expected %q)", mc2.ann, gotC, mc2.wantC, gotD, mc2.wantD)})
+				}
 			}
 		}
 	}
